@@ -222,9 +222,9 @@ def run(prop, tier, seed, verdict):
         counts["relay-runs"] += 1
         port = [x for x in f["port"].split(",") if x]
         sent = [[x for x in e.split(",") if x] for e in f["sent"].split(";")]
-        # per emitter: the port's subsequence with that emitter's status byte equals what it sent, in order, exactly once
+        # per emitter: the port's subsequence on that emitter's channel (low nibble of the status byte) equals what it sent, in order, exactly once
         for e, s in enumerate(sent):
-            sub = [m for m in port if m[:2] == "%02x" % (0x90 | e)]
+            sub = [m for m in port if m[1] == "%x" % e]
             if sub != s:
                 verdict.violation({"clause": "relay-output"}, {"relay": "case r%d" % j, "emitter": e, "sent": s[:50], "port_saw": sub[:50],
                                                                 "what": "messages lost, duplicated, reordered or altered on the way to the port"}, True)
